@@ -12,6 +12,7 @@ import CBV.Model.Common
 import CBV.Gen.Tables
 import CBV.Model.C05
 import CBV.Model.C06Fmt
+import CBV.Model.C06Repr
 import CBV.Gen.TC06
 
 namespace CBV.C06
@@ -388,6 +389,9 @@ structure OpDecl where
   /-- `Wire.grading.description` of the 12 wires, keyed by the wire's corner pair (opaque values) -/
   wireGrading : List (Nat × Nat × List Tree)
   edges : List EdgeDecl                 -- bottom 0..3, top 0..3, side 0..3
+  /-- run-time check: every `str(float)` the model printed for this operation's gradings passes the validator
+      `reprOk` and is a shortest such decimal -/
+  numsOk : Bool := true
   deriving Repr
 
 structure Entity where
@@ -449,6 +453,52 @@ def Payload.inner : Payload → List Tree
   | .raw ts => ts
   | .point p => (vectorTokens p.pos p.neg).map .atom
   | .points ps => ps.map pointTree
+
+/-- a number of a `Grading.specification` as Python holds it: an `int` or a `float` (exact value, sign bit) -/
+inductive PyNum where
+  | int (n : Int)
+  | flt (neg : Bool) (x : Rat)
+  deriving Repr
+
+/-- `str(number)` -/
+def PyNum.str : PyNum → String
+  | .int n => toString n
+  | .flt neg x => pyRepr neg x
+
+/-- the text printed for a float passes the validator and no shorter decimal would -/
+def floatTextOk (neg : Bool) (x : Rat) : Bool :=
+  let cs := pyReprChars neg x
+  reprOk neg x cs &&
+    (x == 0 ||
+      match shortestFrom x (absR x) (decPoint (absR x)) 17 1 with
+      | some (m, e) => let me := stripZeros 20 m e; reprShortest x me.1 me.2
+      | none => false)
+
+def PyNum.ok : PyNum → Bool
+  | .int _ => true
+  | .flt neg x => floatTextOk neg x
+
+/-- one division of `Grading.specification`: `[length_ratio, count, total_expansion]` -/
+structure Division where
+  ratio : PyNum
+  count : PyNum
+  exp : PyNum
+  deriving Repr
+
+/-- `Grading.description`: one division prints its total expansion, several print
+    `((ratio count expansion) … )` -/
+def gradingTrees : List Division → List Tree
+  | [d] => [.atom d.exp.str]
+  | ds => [.paren (ds.map (fun d => .paren [.atom d.ratio.str, .atom d.count.str, .atom d.exp.str]))]
+
+def gradingNumsOk (ds : List Division) : Bool := ds.all (fun d => d.ratio.ok && d.count.ok && d.exp.ok)
+
+/-- `str()` of the three float64 coordinates, as `write_vtk` prints them -/
+def vtkWords (pos : V3) (neg : List Bool) : List String :=
+  [pyRepr (neg.getD 0 false) pos.x, pyRepr (neg.getD 1 false) pos.y, pyRepr (neg.getD 2 false) pos.z]
+
+def vtkNumsOk (pos : V3) (neg : List Bool) : Bool :=
+  floatTextOk (neg.getD 0 false) pos.x && floatTextOk (neg.getD 1 false) pos.y && floatTextOk (neg.getD 2 false) pos.z
 
 /-! ### vertices: the C05 model with corners as points -/
 
@@ -533,9 +583,14 @@ def addEdge (es : List EEntry) (v1 v2 : Nat) (d : EdgeDecl) (forward : Bool) : L
       if forward then d.fwd else d.bwd⟩]
   else es
 
-/-- `EdgeList.add_from_operation`: the beams in the generated enumeration order and direction -/
+/-- the order and direction in which `EdgeList.add_from_operation` walks the twelve beams (corner pairs; the closing
+    beams of the faces are written `3 0` and `7 4`); compared with a probe of the current source in `T_C06_edge_order` -/
+def edgeOrder : List (Nat × Nat) :=
+  [(0, 1), (3, 0), (0, 4), (1, 2), (1, 5), (2, 3), (2, 6), (3, 7), (4, 5), (7, 4), (5, 6), (6, 7)]
+
+/-- `EdgeList.add_from_operation`: the beams in enumeration order and direction -/
 def addEdges (es : List EEntry) (o : OpDecl) (verts : List Nat) : List EEntry :=
-  CBV.Gen.c06EdgeOrder.foldl (fun es (a, b) =>
+  edgeOrder.foldl (fun es (a, b) =>
     match slotOfPair a b with
     | some slot =>
         match o.edges[slot]? with
@@ -795,9 +850,8 @@ def rdCorner : Rd Corner := do
   let (nx, x) ← rdRat
   let (ny, y) ← rdRat
   let (nz, z) ← rdRat
-  let vtk ← rdRepeat rdStr 3
   let proj ← rdList rdStr
-  pure ⟨⟨x, y, z⟩, [nx, ny, nz], vtk, proj⟩
+  pure ⟨⟨x, y, z⟩, [nx, ny, nz], vtkWords ⟨x, y, z⟩ [nx, ny, nz], proj⟩
 
 def rdPre : Rd (Option (String × String)) := do
   match (← get) with
@@ -830,11 +884,32 @@ def rdEdge : Rd EdgeDecl := do
   let bwd ← rdPayload
   pure ⟨repr, valid, preF, fwd.inner, preB, bwd.inner⟩
 
-def rdWire : Rd (Nat × Nat × List Tree) := do
+/-- `I<int>` or `F<rational>` (a leading `-` of the rational is the sign bit) -/
+def rdPyNum : Rd PyNum := do
+  let w ← rdWord
+  if w.startsWith "I" then
+    match (w.drop 1).toString.toInt? with
+    | some n => pure (.int n)
+    | none => failure
+  else if w.startsWith "F" then
+    let r := (w.drop 1).toString
+    match parseRat? r with
+    | some q => pure (.flt (r.startsWith "-") q)
+    | none => failure
+  else failure
+
+def rdDivision : Rd Division := do
+  let r ← rdPyNum
+  let c ← rdPyNum
+  let e ← rdPyNum
+  pure ⟨r, c, e⟩
+
+/-- a wire: its corner pair and its `Grading.specification`; the text is printed here -/
+def rdWire : Rd ((Nat × Nat × List Tree) × Bool) := do
   let a ← rdNat
   let b ← rdNat
-  let g ← rdTrees
-  pure (a, b, g)
+  let ds ← rdList rdDivision
+  pure ((a, b, gradingTrees ds), gradingNumsOk ds)
 
 def rdOp : Rd OpDecl := do
   let deleted ← rdBool
@@ -849,7 +924,7 @@ def rdOp : Rd OpDecl := do
   let simple ← rdBool
   let wg ← rdRepeat rdWire 12
   let edges ← rdRepeat rdEdge 12
-  pure ⟨deleted, corners, patches, sideProj, bp, tp, zone, counts, simple, wg, edges⟩
+  pure ⟨deleted, corners, patches, sideProj, bp, tp, zone, counts, simple, wg.map (·.1), edges, wg.all (·.2)⟩
 
 def rdGEntry : Rd GEntry := do
   let n ← rdStr
@@ -925,8 +1000,11 @@ def handleRender (args : List String) : Option String := do
   let (decl, rest) ← rdDecl.run args
   if !rest.isEmpty then none
   let d := assembleDecl decl
-  some (s!"ok idx={b2s (indicesOk d)} geom={b2s (geometryOk d)} quads={b2s (quadsOk d)} rt={b2s (roundTripOk d)} T " ++
+  some (s!"ok idx={b2s (indicesOk d)} geom={b2s (geometryOk d)} quads={b2s (quadsOk d)} rt={b2s (roundTripOk d)} num={b2s ((declOps decl).all (·.numsOk))} T " ++
     showToks (render d))
+
+/-- the words `write_vtk` prints before `DATASET` (compared with a probe of the current source in `T_C06_vtk_header`) -/
+def vtkHeader : List String := ["#", "vtk", "DataFile", "Version", "2.0", "classy_blocks", "debug", "output", "ASCII"]
 
 /-- `c06.vtk <declaration>` → token stream of the debug VTK -/
 def handleVtk (args : List String) : Option String := do
@@ -935,11 +1013,12 @@ def handleVtk (args : List String) : Option String := do
   let va := declVA decl
   let pts := va.1.vertices.map (·.pos.vtk)
   let cells := va.2.map (·.map (·.index))
-  let out := renderVtk CBV.Gen.c06VtkHeader pts cells
-  let back := match parseVtk CBV.Gen.c06VtkHeader.length out with
+  let out := renderVtk vtkHeader pts cells
+  let back := match parseVtk vtkHeader.length out with
     | some (p, c) => p == pts && c == cells
     | none => false
-  some (s!"ok rt={b2s back} T " ++ " ".intercalate (out.map escape))
+  let nums := va.1.vertices.all (fun v => vtkNumsOk v.pos.pos v.pos.neg)
+  some (s!"ok rt={b2s back} num={b2s nums} T " ++ " ".intercalate (out.map escape))
 
 /-- `c06.parse <tokens of a file>` → does it parse as a blockMeshDict; sizes and flags -/
 def handleParse (args : List String) : Option String := do
